@@ -173,6 +173,30 @@ func c09Shapes() []Shape {
 		return withImports(Prog(Pr(ACall("a", "A", L(0))), Pr(ACall("b", "B")), Pr(ACall("a", "A", N(0)), ACall("a", "T"))), Import{"a", "a.tsh"}, Import{"b", "b.tsh"}),
 			map[string]*Program{"a.tsh": a, "b.tsh": b, "c.tsh": c}
 	}, false)
+	add("imported-top-level-blocks-use-own-globals", 1, func(cl []string) (*Program, map[string]*Program) {
+		a := Prog(hashMarker(cl[0], 0), Def("Total", N(3)), Def("limit", N(2)),
+			IfS(Op(">", V("Total"), V("limit")), Set("Total", Op("+", V("Total"), N(4))), Pr(S("a"), V("Total"))),
+			For3(Def("i", N(0)), Op("<", V("i"), V("limit")), Inc("i"), OpSet("Total", "+", V("i"))),
+			Switch{Tag: V("limit"), Cases: []Case{{Val: N(2), Body: []Stmt{Set("limit", N(5)), Pr(S("switched"), V("limit"))}}}},
+			Fn("Get", nil, []Type{TInt}, Ret(Op("+", V("Total"), V("limit")))))
+		return withImports(Prog(Pr(ACall("a", "Get"), L(0))), Import{"a", "a.tsh"}), map[string]*Program{"a.tsh": a}
+	}, false)
+	add("same-import-string-in-two-directories", 3, func(cl []string) (*Program, map[string]*Program) {
+		helper := func(c string, i int, v int64, tag string) *Program {
+			return Prog(hashMarker(c, i), Def("State", N(0)), Set("State", N(v)), Pr(S("init"), S(tag), V("State")), Fn("Value", nil, []Type{TInt}, Ret(V("State"))))
+		}
+		mod := func(name string) *Program {
+			return withImports(Prog(Fn(name, nil, []Type{TInt}, Ret(Op("+", ACall("h", "Value"), N(1))))), Import{"h", "helper.tsh"})
+		}
+		return withImports(Prog(Pr(ACall("n", "Net"), ACall("d", "Disk"), L(0))), Import{"n", "net/mod.tsh"}, Import{"d", "disk/mod.tsh"}),
+			map[string]*Program{"net/mod.tsh": mod("Net"), "disk/mod.tsh": mod("Disk"), "net/helper.tsh": helper(cl[0], 0, 10, "net"), "disk/helper.tsh": helper(cl[1], 1, 20, "disk")}
+	}, false)
+	add("one-file-two-import-strings", 2, func(cl []string) (*Program, map[string]*Program) {
+		d := Prog(hashMarker(cl[0], 0), Def("count", N(0)), Pr(S("init d")), Fn("Inc", nil, []Type{TInt}, Set("count", Op("+", V("count"), N(1))), Ret(V("count"))))
+		b := withImports(Prog(hashMarker(cl[1], 1), Def("first", ACall("d", "Inc")), Fn("B", nil, []Type{TInt}, Ret(Op("+", Op("*", V("first"), N(100)), ACall("d", "Inc"))))), Import{"d", "d.tsh"})
+		return withImports(Prog(Pr(ACall("b", "B")), Pr(ACall("d", "Inc"), L(0))), Import{"b", "lib/b.tsh"}, Import{"d", "lib/d.tsh"}),
+			map[string]*Program{"lib/b.tsh": b, "lib/d.tsh": d}
+	}, false)
 	add("same-file-two-aliases", 1, func(cl []string) (*Program, map[string]*Program) {
 		return withImports(Prog(Pr(ACall("x", "Hello", L(0)), ACall("y", "Hello", L(1)))), Import{"x", "h.tsh"}, Import{"y", "h.tsh"}),
 			map[string]*Program{"h.tsh": pubHello(cl[0], 0)}
